@@ -33,3 +33,16 @@ pub use embedded_cli_macros::{Command, CommandGroup};
 pub mod __private;
 
 //TODO: organize pub uses better
+
+/// Verification hooks: re-exports of internal types. Not public API.
+#[cfg(feature = "verif-hooks")]
+#[doc(hidden)]
+pub mod verif_hooks {
+    pub use crate::editor::Editor;
+    #[cfg(feature = "history")]
+    pub use crate::history::History;
+    pub use crate::input::{ControlInput, Input, InputGenerator};
+    pub use crate::token::{Tokens, TokensIter};
+    pub use crate::utf8::Utf8Accum;
+    pub use crate::utils::*;
+}
